@@ -27,6 +27,13 @@
                           or the body of `if isinstance(v, C):`): classes of different KINDS share that table, so an unguarded
                           `existing.values` raises AttributeError when a model is registered under an enum's class name
 
+  gen_detail_none_safe    error values may carry only a header (detail=None, e.g. `Unsupported enum type`): every read of `<x>.detail`
+                          anywhere in the package tolerates None, i.e. it is (a) interpolated whole in an f-string, (b) the left part of
+                          `<x>.detail or "<str>"`, (c) a truth / `is None` test, or guarded by such a test of the same expression,
+                          (d) passed on unchanged as a `detail=` keyword, or (e) for `<x>.detail += ...` preceded in an enclosing block by
+                          `<x>.detail = <x>.detail or ""` / an f-string / a string constant.  Anything else (str.join element,
+                          concatenation, slicing, method call, positional argument, alias assignment) makes the fact false.
+
 Fail closed: a shape this script cannot recognise is emitted as false (the theorem CliThm.code_shape then no longer checks);
 a file that cannot be parsed makes the script exit 1."""
 import ast, os, sys
@@ -456,6 +463,111 @@ def fact_kind_guards():
     return seen_sites >= 2
 
 
+def _parents(tree):
+    par = {}
+    for n in ast.walk(tree):
+        for c in ast.iter_child_nodes(n):
+            par[id(c)] = n
+    return par
+
+
+def _str_valued(expr, target_src):
+    """expr certainly evaluates to a str: f-string, str constant, or `<target> or "<str>"`"""
+    if isinstance(expr, ast.JoinedStr) or (isinstance(expr, ast.Constant) and isinstance(expr.value, str)):
+        return True
+    if isinstance(expr, ast.BoolOp) and isinstance(expr.op, ast.Or) and u(expr.values[0]) == target_src:
+        return all(_str_valued(v, target_src) for v in expr.values[1:])
+    return False
+
+
+def _dominating_str_assign(stmt, par, target_src):
+    """some statement before `stmt` in its own or an enclosing statement list assigns a str to target_src"""
+    node = stmt
+    while node is not None:
+        parent = par.get(id(node))
+        if parent is None:
+            return False
+        for field in ("body", "orelse", "finalbody"):
+            lst = getattr(parent, field, None)
+            if isinstance(lst, list) and node in lst:
+                for prev in lst[:lst.index(node)]:
+                    if isinstance(prev, ast.Assign) and len(prev.targets) == 1 and u(prev.targets[0]) == target_src and _str_valued(prev.value, target_src):
+                        return True
+        if isinstance(parent, (ast.FunctionDef, ast.AsyncFunctionDef, ast.ClassDef, ast.Module)):
+            return False
+        node = parent
+    return False
+
+
+def _guarded_by_test(node, par, src):
+    """an enclosing if / conditional expression / and-chain tests `src` for truth or `is not None` before node is evaluated"""
+    def is_test(t):
+        if u(t) == src:
+            return True
+        if isinstance(t, ast.Compare) and len(t.ops) == 1 and isinstance(t.ops[0], ast.IsNot) and u(t.left) == src and u(t.comparators[0]) == "None":
+            return True
+        if isinstance(t, ast.BoolOp) and isinstance(t.op, ast.And):
+            return any(is_test(v) for v in t.values)
+        return False
+    child = node
+    while True:
+        parent = par.get(id(child))
+        if parent is None or isinstance(parent, (ast.FunctionDef, ast.AsyncFunctionDef, ast.ClassDef, ast.Module)):
+            return False
+        if isinstance(parent, ast.If) and child in parent.body and is_test(parent.test):
+            return True
+        if isinstance(parent, ast.IfExp) and child is parent.body and is_test(parent.test):
+            return True
+        if isinstance(parent, ast.IfExp) and child is parent.orelse and isinstance(parent.test, ast.Compare) and len(parent.test.ops) == 1 \
+                and isinstance(parent.test.ops[0], ast.Is) and u(parent.test.left) == src and u(parent.test.comparators[0]) == "None":
+            return True
+        if isinstance(parent, ast.BoolOp) and isinstance(parent.op, ast.And) and child in parent.values and any(is_test(v) for v in parent.values[:parent.values.index(child)]):
+            return True
+        child = parent
+
+
+def fact_detail_none_safe():
+    seen = 0
+    for dp, dn, fn in os.walk(PKG):
+        dn.sort()
+        if "templates" in dp.split(os.sep):
+            continue
+        for f in sorted(fn):
+            if not f.endswith(".py"):
+                continue
+            tree = parse(os.path.relpath(os.path.join(dp, f), PKG))
+            par = _parents(tree)
+            for n in ast.walk(tree):
+                if isinstance(n, ast.AugAssign) and isinstance(n.target, ast.Attribute) and n.target.attr == "detail":
+                    seen += 1
+                    if not _dominating_str_assign(n, par, u(n.target)):
+                        return False
+                if not (isinstance(n, ast.Attribute) and n.attr == "detail" and isinstance(n.ctx, ast.Load)):
+                    continue
+                seen += 1
+                src = u(n)
+                p_ = par.get(id(n))
+                if isinstance(p_, ast.FormattedValue) and p_.value is n and p_.format_spec is None:
+                    continue                                                   # (a)
+                if isinstance(p_, ast.BoolOp) and isinstance(p_.op, ast.Or) and p_.values[0] is n and all(_str_valued(v, src) for v in p_.values[1:]):
+                    continue                                                   # (b)
+                if isinstance(p_, (ast.If, ast.IfExp, ast.While)) and p_.test is n:
+                    continue                                                   # (c) truth test
+                if isinstance(p_, ast.UnaryOp) and isinstance(p_.op, ast.Not):
+                    continue
+                if isinstance(p_, ast.Compare) and all(isinstance(o, (ast.Is, ast.IsNot)) for o in p_.ops):
+                    continue
+                if isinstance(p_, ast.BoolOp) and isinstance(p_.op, ast.And) and _guarded_by_test(n, par, src) is False and p_.values[0] is n:
+                    continue                                                   # first operand of an and-chain: a truth test
+                if isinstance(p_, ast.keyword) and p_.arg == "detail":
+                    continue                                                   # (d)
+                if _guarded_by_test(n, par, src):
+                    continue                                                   # (c) guarded
+                # statement-level dominance for reads inside an f-string assignment etc. is covered by (a); everything else is unsafe
+                return False
+    return seen >= 5
+
+
 LOOPS = [("parser/properties/__init__.py", "_create_schemas"), ("parser/properties/__init__.py", "_process_models"),
          ("parser/properties/__init__.py", "build_parameters")]
 
@@ -479,7 +591,8 @@ def main():
              "Definition gen_retry_loops : list (list N * bool) := [%s]. (* %s *)" % (
                  "; ".join(f"({cstr(n)}, {b(fact_retry_loop(rel, n))})" for rel, n in LOOPS), ", ".join(n for _, n in LOOPS)),
              f"Definition gen_body_ref_guard : bool := {b(fact_body_ref_guard())}.",
-             f"Definition gen_kind_guards : bool := {b(fact_kind_guards())}."]
+             f"Definition gen_kind_guards : bool := {b(fact_kind_guards())}.",
+             f"Definition gen_detail_none_safe : bool := {b(fact_detail_none_safe())}."]
     txt = "\n".join(lines) + "\n"
     os.makedirs(os.path.dirname(OUT), exist_ok=True)
     old = None
